@@ -42,9 +42,9 @@ def make_deft(spec):
 
 def apply_then(o, step):
     if step[0] == "to":
-        return o.to(NDT[step[1]])
+        return o.to(step[1] if isinstance(step[1], torch.dtype) else NDT[step[1]])
     if step[0] == "type":
-        return o.type(NDT[step[1]])
+        return o.type(step[1] if isinstance(step[1], torch.dtype) else NDT[step[1]])
     if step[0] in ("clone", "detach", "double", "float"):
         return getattr(o, step[0])()
     raise ValueError(step)
@@ -68,6 +68,19 @@ def map_expr(e, f):
             if isinstance(e.get(k), dict) and "cls" in e[k]:
                 e2[k] = map_expr(e[k], f)
     return f(e2)
+
+
+def with_perm_dtype(e):
+    """permutation operators built with dtype=<data dtype> (their nominal dtype is a constructor keyword): the operator
+    an informed caller builds around float64 data"""
+    def f(x):
+        c = x.get("cls")
+        if c == "Permutation":
+            return X("PermutationLinearOperator", [x["perm"]], {"dtype": {"dtype": "src"}}, like=x)
+        if c == "TransposePermutation":
+            return X("TransposePermutationLinearOperator", [x["m"]], {"dtype": {"dtype": "src"}}, like=x)
+        return x
+    return map_expr(e, f)
 
 
 def dedtype(e):
@@ -148,12 +161,15 @@ def h_specials(rng):
     out.append(("matmul_tensors", X("MatmulLinearOperator", [deft(r([2, 3])), deft(r([3, 2]))])))
     out.append(("root_deft", X("RootLinearOperator", [deft(r([3, 2]))])))
     out.append(("tri_deft", X("TriangularLinearOperator", [deft({"shape": [2, 2], "data": [2, 0, 1, 3]})], {"upper": False})))
-    # nominal-dtype operators
+    # operators without floating data: the nominal dtype is a keyword (given, or the float32 default next to float32 data)
     perm = {"shape": [3], "data": [1, 2, 0], "long": True}
-    out.append(("perm", X("PermutationLinearOperator", [perm])))
-    out.append(("matmul_perm", {"cls": "Matmul", "l": X("PermutationLinearOperator", [perm]), "r": dn(3, 2)}))
-    out.append(("transperm", X("TransposePermutationLinearOperator", [2])))
-    out.append(("matmul_transperm", {"cls": "Matmul", "l": X("TransposePermutationLinearOperator", [2]), "r": dn(4, 2)}))
+    P = lambda: X("PermutationLinearOperator", [perm], {"dtype": {"dtype": "src"}})
+    TP = lambda: X("TransposePermutationLinearOperator", [2], {"dtype": {"dtype": "src"}})
+    out.append(("perm", P()))
+    out.append(("matmul_perm", {"cls": "Matmul", "l": P(), "r": dn(3, 2)}))
+    out.append(("transperm", TP()))
+    out.append(("matmul_transperm", {"cls": "Matmul", "l": TP(), "r": dn(4, 2)}))
+    out.append(("sum_perm_converted", {"cls": "Sum", "ops": [X("PermutationLinearOperator", [perm], then=[("to", "src")]), dn(3)]}))
     return out
 
 
@@ -166,7 +182,7 @@ def family_h(rng, quick, seed, gen_ok):
     for ci, cls in enumerate(ob.ALL):
         for batch in ([],) if quick else ([], [2]):
             try:
-                e = dedtype(ob.gen(rng, cls, batch=batch, m=3, n=2, depth=1))
+                e = with_perm_dtype(dedtype(ob.gen(rng, cls, batch=batch, m=3, n=2, depth=1)))
             except Exception:
                 continue
             qs = H_QUERIES if not quick else [H_QUERIES[(i * 2 + ci + seed) % len(H_QUERIES)] for i in range(7)]
@@ -177,7 +193,7 @@ def family_h(rng, quick, seed, gen_ok):
         kids = H_KIDS if not quick else [H_KIDS[(wi + j * 3 + seed) % len(H_KIDS)] for j in range(3)]
         for ki, kid in enumerate(dict.fromkeys(kids)):
             try:
-                e = dedtype(ob.gen(rng, w, batch=[[], [2]][(wi + ki) % 2], m=3, n=3, depth=2, child=kid))
+                e = with_perm_dtype(dedtype(ob.gen(rng, w, batch=[[], [2]][(wi + ki) % 2], m=3, n=3, depth=2, child=kid)))
             except Exception:
                 continue
             qs = H_QUERIES if not quick else [H_QUERIES[(i * 2 + wi + ki + seed) % len(H_QUERIES)] for i in range(6)]
@@ -197,9 +213,13 @@ def n_firsts(n):
     perm = {"shape": [n], "data": [(i + 1) % n for i in range(n)], "long": True}
     other = lambda d: "F32" if d == "F64" else "F64"
     return [
-        ("perm", lambda d: X("PermutationLinearOperator", [perm])),
-        ("perm_to64", lambda d: X("PermutationLinearOperator", [perm], then=[("to", "F64")])),
-        ("transperm", lambda d: X("TransposePermutationLinearOperator", [2])),
+        ("perm_same", lambda d: X("PermutationLinearOperator", [perm], {"dtype": {"dtype": d}})),
+        ("perm_other", lambda d: X("PermutationLinearOperator", [perm], {"dtype": {"dtype": other(d)}})),
+        ("perm_converted", lambda d: X("PermutationLinearOperator", [perm], then=[("to", d)])),
+        ("perm_typed", lambda d: X("PermutationLinearOperator", [perm], {"dtype": {"dtype": other(d)}}, then=[("type", d)])),
+        ("transperm_same", lambda d: X("TransposePermutationLinearOperator", [2], {"dtype": {"dtype": d}})),
+        ("transperm_other", lambda d: X("TransposePermutationLinearOperator", [2], {"dtype": {"dtype": other(d)}})),
+        ("transperm_converted", lambda d: X("TransposePermutationLinearOperator", [2], then=[("to", d)])),
         ("zero_same", lambda d: X("ZeroLinearOperator", [n, n], {"dtype": {"dtype": d}})),
         ("zero_other", lambda d: X("ZeroLinearOperator", [n, n], {"dtype": {"dtype": other(d)}})),
         ("identity_same", lambda d: X("IdentityLinearOperator", [n], {"dtype": {"dtype": d}})),
